@@ -12,7 +12,7 @@ and they are the very constants the translated program hands to the engine (`Gen
 constants of `PbnParser` are translated as properties; `Generated/PyCoreHands.lean`: module constants).
 If a pattern is edited in the source, these theorems stop checking.
 -/
-namespace Bridge.RegexTie
+namespace Bridge.Regex
 open Bridge Bridge.Py Bridge.Generated.PyCore
 
 theorem pbn_patterns_are_in_the_source :
@@ -45,4 +45,4 @@ theorem hands_patterns_are_the_translated_constants :
     ∧ globalsHands.lookup n_DEAL_PATTERN = some (.str RegexHands.DEAL_PATTERN) := by
   exact ⟨rfl, rfl⟩
 
-end Bridge.RegexTie
+end Bridge.Regex
